@@ -54,9 +54,9 @@ MANIFEST = {
              "only received state-keeping calls returns exactly the answer of a fresh parser, whatever the class attributes "
              "are at that moment (needs the D5 repair: hypothesis env.reassert, refuted without it by d5_old_witness). "
              "Exclusions = open findings D9 (other subgroup choice than the frozen one, incl. rejected choices), D10 (file "
-             "defaults pushed earlier / files given after set-up), root-less file after set-up, late add_arguments; a wrong "
-             "answer (D9, late add) does not taint the parser. Each finding has a witness history; the repaired D5/D6/D8 and "
-             "print_help+config_path= histories are regression examples. Parsers with constructor config_path= files are covered beyond their first call under "
+             "defaults pushed earlier / files given after set-up), late add_arguments; a wrong "
+             "answer (D9, late add) does not taint the parser. Each finding has a witness history; the repaired D5/D6/D8, "
+             "print_help+config_path= and root-less-file-after-set-up (2abd945) histories are regression examples. Parsers with constructor config_path= files are covered beyond their first call under "
              "the decidable state check ctorReloadSafe (re-applying the files changes nothing; idempotence of the load "
              "itself is not proved). SAMPLED only (no theorem): the implied add_config_path_arg form of config_path= "
              "(outside the model), --config_path parsers set up by print_help / after a parse stopped in the subgroup choice, "
@@ -65,7 +65,7 @@ MANIFEST = {
              "closures after every call), the trajectory of the class attributes (observable g). Every parse of every "
              "generated history is compared with the model and with a fresh interpreter."),
     "note": ("Trusted: Lean kernel + standard axioms; harness; fresh-process reference. Modelled not verified (/repo at "
-             "c681aea): parsing.py:127-176,287-369,396-406,408-461,546-583,629-803, field_wrapper.py:97-103,599-604, "
+             "2abd945): parsing.py:127-176,287-369,396-406,408-464,549-586,632-806, field_wrapper.py:97-103,599-604, "
              "field_parsing.py:208-258 on flat dataclasses with at most one flat subgroups field, no clashing options."),
     "technique": "Lean 4 step invariant lifted to all histories + differential check against fresh interpreters",
     "design_ref": "DESIGN.md section 5, C08",
@@ -1103,26 +1103,10 @@ def _rootless_keys(x):
     return {k for name, content in FILES if name in names and isinstance(content, dict) for k, _ in content["rootless"]}
 
 
-def sig_rootless(case, obs, fail):
-    """C08-rootless-after-setup: WITHOUT_ROOT parser, one registration whose class has a subgroups field, a root-less
-    config file: after the set-up the file's keys show up as top-level attributes of the namespace"""
-    x = _ctx(case, obs, fail)
-    if not x or x["part"] != "other":
-        return False
-    if x["spec"]["cfg"]["nest"] != "WITHOUT_ROOT" or len(x["spec"]["regs"]) != 1 or not x["before"].get("pre"):
-        return False
-    if not x["spec"]["regs"][0]["cls"].get("sub"):
-        return False
-    keys = _rootless_keys(x)
-    g, f = x["got"], x["fresh"]
-    return bool(g.get("other")) and not f.get("other") and {k for k, _ in g["other"]} <= keys
-
-
 FINDINGS = {
     "C08-D9-subgroup-choice-frozen": sig_d9,
     "C08-D10-file-defaults-persist": sig_d10,
     "C08-late-add-ignored": sig_late_add,
-    "C08-rootless-after-setup": sig_rootless,
 }
 
 
